@@ -145,7 +145,10 @@ MINI = ['empty !note(int k) { preempt { write(k); } } empty @is_you(int x) { try
         'int n = 0; empty !c(int k) { for (int i = 0; i < k; !truth_is_defeat(i == 3)) { i += 1; } } empty @is_you(int x) { try { !c(x); } undo { } }',
         'empty @is_you() { write(1); }',
         'int g = 1; int f(int a) { return a + g; } empty @is_you(int x) { try { !truth_is_defeat(f(x) == 2); } undo { write("u"); } }',
-        'empty !d(int[] a) { preempt { return; } a[0] = 1; } empty @is_you(const string[] v) { int n[v.length]; try { !d(n); } stop { } write(n[0] ?? 0); }']
+        'empty !d(int[] a) { preempt { return; } a[0] = 1; } empty @is_you(const string[] v) { int n[v.length]; try { !d(n); } stop { } write(n[0] ?? 0); }',
+        # every builtin, reachable or not
+        'empty never() { all_is_broken(); } empty @is_you(int x) { if (x == 1) { all_is_broken(); } if (x == 2) { all_is_win(); } sleep(x); debug(); progress(); writeln(); '
+        'try { !truth_is_defeat(x == 3); !is_defeat(); } undo { } if (x == 4) { never(); } write(x / 2); int a[x]; write(a.length); }']
 
 
 def run_item(item, tier):
@@ -273,6 +276,7 @@ def run_item(item, tier):
             for S in (0, 1, 2, 500, 10 ** 6, 10 ** 9, 10 ** 30):
                 for text in MINI:
                     check_text(st, text, f'options W={W} S={S}', W=W, S=S)
+                    check_text(st, text, f'options W={W} S={S} --unchecked', W=W, S=S, unchecked=True)
         for W in (0, 1, -1):
             check_text(st, MINI[0], f'options W={W}', W=W)
         for S in (-1, -500):
